@@ -10,6 +10,7 @@
 
 mod alloc;
 mod calls;
+mod firstuse;
 mod sink;
 
 use calls::{Call, Tables};
@@ -96,6 +97,56 @@ fn set_clock_mode(m: ClockMode) {
             ClockMode::Ticking => (2, 0),
         })
     });
+}
+
+// ---------------------------------------------------------------------------
+// thread-exit probe: the crate is called once more from a thread-local
+// destructor of the caller (a per-thread exit logger does that). The probe is
+// registered BEFORE the thread touches the crate, so it is destroyed AFTER
+// whatever per-thread state the crate itself keeps.
+// ---------------------------------------------------------------------------
+
+static EXIT_PROBE_PANIC: std::sync::Mutex<Option<String>> = std::sync::Mutex::new(None);
+
+struct ExitProbe;
+
+struct CountSink(usize);
+impl std::fmt::Write for CountSink {
+    fn write_str(&mut self, s: &str) -> std::fmt::Result {
+        self.0 += s.len();
+        Ok(())
+    }
+}
+
+impl Drop for ExitProbe {
+    fn drop(&mut self) {
+        let r = std::panic::catch_unwind(|| {
+            use std::fmt::Write as _;
+            let mut sink = CountSink(0);
+            if let Ok(f) = sqldatetime::Formatter::try_new("YYYY-MM-DD HH24:MI:SS.FF6 DAY MONTH") {
+                let _ = f.format(sqldatetime::Timestamp::MIN, &mut sink);
+            }
+            let _ = sqldatetime::Date::parse("2020-02-29", "YYYY-MM-DD");
+            if let Ok(d) = sqldatetime::Time::ZERO.format("HH24:MI") {
+                let _ = write!(sink, "{}", d);
+            }
+            let _ = sqldatetime::IntervalYM::parse("+0001-02", "YYYY-MM");
+        });
+        if let Err(e) = r {
+            let msg = e
+                .downcast_ref::<String>()
+                .cloned()
+                .or_else(|| e.downcast_ref::<&str>().map(|s| s.to_string()))
+                .unwrap_or_else(|| "panic".to_string());
+            if let Ok(mut g) = EXIT_PROBE_PANIC.lock() {
+                *g = Some(msg);
+            }
+        }
+    }
+}
+
+thread_local! {
+    static EXIT_PROBE: ExitProbe = const { ExitProbe };
 }
 
 // ---------------------------------------------------------------------------
@@ -477,6 +528,7 @@ fn worker(build: &str, seed: u64, n_calls: u64, index: u64, of: u64, trace: bool
         let call_hash_value = if fresh_thread {
             std::thread::scope(|s| {
                 s.spawn(|| {
+                    EXIT_PROBE.with(|_| ());
                     install_clock();
                     body()
                 })
@@ -486,6 +538,18 @@ fn worker(build: &str, seed: u64, n_calls: u64, index: u64, of: u64, trace: bool
         } else {
             body()
         };
+        if fresh_thread {
+            let exit_panic = EXIT_PROBE_PANIC.lock().ok().and_then(|mut g| g.take());
+            if let Some(msg) = exit_panic {
+                if st.violations.len() < 5 {
+                    st.violations.push(json!({
+                        "index": idx, "pass_no": 0, "build": build, "class": "panic",
+                        "panic": format!("panicked at thread exit (crate called from a thread-local destructor of the caller after this call): {}", msg),
+                        "call": call.to_json(), "pass": Pass::CONTROL.to_json(), "describe": call.describe(), "at_thread_exit": true,
+                    }));
+                }
+            }
+        }
         st.hash = st.hash.wrapping_add(simcore::pool::batch_mix(idx, call_hash_value));
         idx += of;
     }
@@ -498,6 +562,42 @@ fn worker(build: &str, seed: u64, n_calls: u64, index: u64, of: u64, trace: bool
     });
     println!("STATS {}", out);
     EXIT_OK
+}
+
+/// One first-use probe in this (fresh) process: the first serde use of a type with allocation
+/// request `k` refused (k < 0: no fault), then the same again without a fault.
+/// exit 0: returned normally; exit 1: panicked; killed by a signal: crash.
+fn first_use_probe(ty: u64, human: bool, k: i64, persistent: bool) -> i32 {
+    std::hint::black_box(firstuse::warm_up_third_party());
+    let r = std::panic::catch_unwind(|| {
+        alloc::arm(if k >= 0 { Some(k as u64) } else { None }, persistent);
+        firstuse::exercise(ty, human);
+        let (seen, refused) = alloc::disarm();
+        (seen, refused)
+    });
+    let _ = alloc::disarm();
+    let first = match r {
+        Ok((seen, refused)) => format!("first use: {} allocation requests, {} refused", seen, refused),
+        Err(_) => {
+            println!("PANIC during the first use: {}", LAST_PANIC.with(|p| p.borrow().clone()).replace('\n', " | "));
+            return EXIT_VIOLATION;
+        }
+    };
+    // the fault is over: the same calls must work now
+    let r2 = std::panic::catch_unwind(|| {
+        firstuse::exercise(ty, human);
+        firstuse::exercise(ty, !human);
+    });
+    match r2 {
+        Ok(()) => {
+            println!("{first}; second use fine");
+            EXIT_OK
+        }
+        Err(_) => {
+            println!("PANIC on a later, fault-free use: {}", LAST_PANIC.with(|p| p.borrow().clone()).replace('\n', " | "));
+            EXIT_VIOLATION
+        }
+    }
 }
 
 /// Executes one (call, pass) from a replay file in this process.
@@ -659,6 +759,31 @@ fn exec_history(build: &str, seed: u64, n_calls: u64, of: u64, from: u64, until:
     None
 }
 
+/// Runs one first-use probe in a fresh process of `build`. Returns "ok", "panic: ..", "crash: ..".
+fn first_use_in_fresh_process(build: &str, ty: u64, human: bool, k: i64, persistent: bool) -> String {
+    match std::process::Command::new(build_exe(build))
+        .arg("--first-use")
+        .arg(ty.to_string())
+        .arg(if human { "1" } else { "0" })
+        .arg(k.to_string())
+        .arg(if persistent { "1" } else { "0" })
+        .output()
+    {
+        Ok(o) => {
+            let out = String::from_utf8_lossy(&o.stdout);
+            match o.status.code() {
+                Some(0) => "ok".into(),
+                Some(1) => format!("panic: {}", out.lines().find(|l| l.starts_with("PANIC")).unwrap_or("")),
+                Some(c) => format!("harness: exit code {c}"),
+                None => format!("crash: {:?} {}", o.status, String::from_utf8_lossy(&o.stderr).lines().last().unwrap_or("")),
+            }
+        }
+        Err(e) => format!("harness: {e}"),
+    }
+}
+
+const TYPE_NAMES: [&str; 6] = ["Date", "Timestamp", "Time", "IntervalYM", "IntervalDT", "OracleDate"];
+
 fn class_of(result: &str) -> &'static str {
     if result.starts_with("panic") {
         "panic"
@@ -807,6 +932,44 @@ fn coordinator(tier: &str, calls_override: Option<u64>, out: &std::path::Path) -
     let mut found: Vec<(String, u64, u64, Call, Pass, String)> = Vec::new();
     let mut harness_errors: Vec<String> = Vec::new();
 
+    // ---- first-use probes: one fresh process each ----
+    let mut first_use_probes = 0u64;
+    let mut first_use_failures: Vec<(String, u64, bool, i64, bool, String)> = Vec::new();
+    for build in builds {
+        if !build_exe(build).exists() {
+            eprintln!("harness error: {} is not built", build_exe(build).display());
+            return EXIT_HARNESS;
+        }
+        let mut jobs: Vec<(u64, bool, i64, bool)> = Vec::new();
+        for ty in 0..firstuse::N_TYPES {
+            for human in [false, true] {
+                jobs.push((ty, human, -1, false));
+                for k in 0..4i64 {
+                    jobs.push((ty, human, k, false));
+                    jobs.push((ty, human, k, true));
+                }
+            }
+        }
+        for chunk in jobs.chunks(workers as usize) {
+            let results: Vec<(u64, bool, i64, bool, String)> = std::thread::scope(|sc| {
+                let hs: Vec<_> = chunk
+                    .iter()
+                    .map(|&(ty, human, k, p)| sc.spawn(move || (ty, human, k, p, first_use_in_fresh_process(build, ty, human, k, p))))
+                    .collect();
+                hs.into_iter().map(|h| h.join().expect("probe thread")).collect()
+            });
+            for (ty, human, k, p, r) in results {
+                first_use_probes += 1;
+                match class_of(&r) {
+                    "ok" => {}
+                    "harness" => harness_errors.push(format!("first-use probe ({build}, {}, human={human}, k={k}): {r}", TYPE_NAMES[ty as usize])),
+                    _ => first_use_failures.push((build.to_string(), ty, human, k, p, r)),
+                }
+            }
+        }
+    }
+    println!("first-use probes: {} fresh processes, {} failing", first_use_probes, first_use_failures.len());
+
     for build in builds {
         if !build_exe(build).exists() {
             eprintln!("harness error: {} is not built", build_exe(build).display());
@@ -897,6 +1060,36 @@ fn coordinator(tier: &str, calls_override: Option<u64>, out: &std::path::Path) -
     let mut lines = Vec::new();
     let mut n_viol = 0;
     let mut seen_sigs: BTreeSet<String> = BTreeSet::new();
+    for (build, ty, human, k, p, r) in &first_use_failures {
+        // confirm once more in another fresh process
+        let again = first_use_in_fresh_process(build, *ty, *human, *k, *p);
+        if class_of(&again) != class_of(r) {
+            harness_errors.push(format!("first-use failure did not reproduce: {r} / {again}"));
+            continue;
+        }
+        let sig = format!("first_use:{}:{}:{}", class_of(r), TYPE_NAMES[*ty as usize], if r.contains("later, fault-free use") { "poisoned_afterwards" } else { "during_first_use" });
+        if !seen_sigs.insert(sig.clone()) {
+            continue;
+        }
+        println!(
+            "violation class={} build={} sig={} : first serde use of {} in a fresh process ({} serializer, then a string deserializer) with allocation request {} refused{} -> {}",
+            class_of(r), build, sig, TYPE_NAMES[*ty as usize], if *human { "human-readable" } else { "compact" }, k, if *p { " persistently" } else { " once" }, r
+        );
+        if let Some(desc) = known.lookup(PROPERTY, &sig) {
+            println!("KNOWN-FINDING: property={} {} ({})", PROPERTY, sig, desc);
+            continue;
+        }
+        n_viol += 1;
+        let path = simcore::verif_root().join("replays").join(format!("C03-{}-firstuse-{}-{}-{}-{}.json", seed, build, ty, *human as u8, k));
+        let body = json!({"property": PROPERTY, "kind": "first_use", "class": class_of(r), "signature": sig, "build": build,
+            "type_index": ty, "type": TYPE_NAMES[*ty as usize], "human_readable_serializer": human, "refuse_allocation_request": k, "persistent": p, "result": r});
+        if let Err(e) = simcore::evidence::write_json_atomic(&path, &body) {
+            eprintln!("harness error: cannot write replay: {e}");
+            return EXIT_HARNESS;
+        }
+        lines.push(format!("VIOLATION property={} replay={}", PROPERTY, path.display()));
+        exit = EXIT_VIOLATION;
+    }
     for (build, idx, pno, call, pass, _result) in found.iter().take(12) {
         let first = exec_in_fresh_process(build, call, pass, &scratch);
         let class = class_of(&first);
@@ -1023,6 +1216,7 @@ fn coordinator(tier: &str, calls_override: Option<u64>, out: &std::path::Path) -
             "simulated_time_covered": "not meaningful: no timers in the code under test; the clock is a value source (10 extreme readings + a ticking clock per clock-reading call)",
             "batch_hash": hashes.iter().map(|(b, h)| format!("{}:{:016x}", b, h)).collect::<Vec<_>>().join(" "),
             "workers": workers,
+            "first_use_probes": {"fresh_processes": first_use_probes, "what": "first serde serialization/deserialization of each type in a process (builds the shared static formatters) with allocation request 0..3 refused once / persistently, then the same calls fault-free; harness-side non-allocating serializer and deserializer; third-party start-up allocation (parking_lot table) warmed up first"},
             "process_isolation": "each build runs in worker processes; a worker death (abort, stack overflow) is located by a traced re-run and confirmed in a fresh process",
             "components": {
                 "real": ["all of sqldatetime in two build configurations", "core::fmt machinery between LazyFormat and the sink"],
@@ -1127,6 +1321,27 @@ fn replay(path: &str) -> i32 {
         }
     };
     let build = v["build"].as_str().unwrap_or("relchk").to_string();
+    if v["kind"].as_str() == Some("first_use") {
+        let r = first_use_in_fresh_process(
+            &build,
+            v["type_index"].as_u64().unwrap_or(0),
+            v["human_readable_serializer"].as_bool().unwrap_or(true),
+            v["refuse_allocation_request"].as_i64().unwrap_or(-1),
+            v["persistent"].as_bool().unwrap_or(false),
+        );
+        println!("replay {}: first-use probe -> {}", path, r);
+        return match class_of(&r) {
+            "panic" | "crash" => {
+                println!("VIOLATION property={} replay={}", PROPERTY, path);
+                EXIT_VIOLATION
+            }
+            "ok" => {
+                println!("no violation on this tree");
+                EXIT_OK
+            }
+            _ => EXIT_HARNESS,
+        };
+    }
     if v["kind"].as_str() == Some("history") {
         let r = exec_history(
             &build,
@@ -1216,6 +1431,13 @@ fn main() {
             "--from" => from = take(&mut i).parse().unwrap_or(0),
             "--until" => until = take(&mut i).parse().unwrap_or(u64::MAX),
             "--out" => out = take(&mut i).into(),
+            "--first-use" => {
+                let ty: u64 = take(&mut i).parse().unwrap_or(0);
+                let human = take(&mut i) == "1";
+                let k: i64 = take(&mut i).parse().unwrap_or(-1);
+                let persistent = take(&mut i) == "1";
+                std::process::exit(first_use_probe(ty, human, k, persistent));
+            }
             "--exec-one" => {
                 let f = take(&mut i);
                 std::process::exit(exec_one(&f));
